@@ -9,6 +9,7 @@ symlink), with and without a hash-state cache, source path given with or without
 usage: roundtrip.py [N]  (seed from VERIF_SEED) -> JSON report, last line of stdout
 """
 import logging; logging.disable(logging.CRITICAL)  # noqa: E702
+import _memfs  # noqa: E402
 import hashlib, json, os, random, sys, tempfile  # noqa: E401
 
 SRC = os.environ.get("PYVC_REPO_SRC", "/repo/src")
@@ -144,6 +145,7 @@ def main():
     rng = random.Random(int(os.environ.get("VERIF_SEED", "1")))
     failures = []
     for i in range(n):
+        _memfs.reset()
         failures += run_one(rng, i)
     print(json.dumps({"evaluations": n, "distinct_nontrivial": n, "n_failures": len(failures), "failures": failures[:4],
                       "bound": f"{n} seeded trees: <= 7 files, depth <= 4, duplicates / empty / CRLF / non-ASCII names, single files; 2 store classes x 3 link "
